@@ -447,7 +447,8 @@ def fit_level(ck, cases, meta):
             ck.discard('could not draw a non-collinear positively weighted catalog')
             continue
         tq, g, ra, dec = reference_positions(rng, sc)
-        im, rf = W.tables(sc['x'], sc['y'], ra, dec, sc['wim'], sc['wref'])
+        im, rf = W.tables(sc['x'], sc['y'], ra, dec, sc['wim'], sc['wref'], foreign=(t % 4 == 1))
+        ck.count('tables_with_foreign_columns', t % 4 == 1)
         cc = sc['c'].copy()
         A0, R = states(sc, cc)
         nclip = 0 if sc['stream'] == 'noisy' else rng.choice([0, 3])
@@ -555,6 +556,10 @@ def align_level(ck, cases, meta):
         cat = Table([sc['x'], sc['y']], names=('x', 'y'))
         if sc['wim'] is not None:
             cat['weight'] = sc['wim']
+        if t % 4 == 2:
+            # stale sky positions from an earlier WCS solution: extra columns, not data of the alignment
+            cat['RA'] = np.full(len(sc['x']), 10.0) + np.arange(len(sc['x'])) * 1e-3
+            cat['DEC'] = np.full(len(sc['x']), -5.0)
         cc = sc['c'].copy()
         cc.meta['catalog'] = cat
         cc.meta['name'] = 'im'
